@@ -410,6 +410,12 @@ func TestVF_C19_Matrix(t *testing.T) {
 		}
 		st.Case(vfshared.Fingerprint("bundle", filepath.Base(bad)), true, "fail_closed_bundle")
 	}
+	// a listener with verification on but no CA configured has nothing to verify against: it must not come up (falling
+	// back to some other trust store would admit peers the operator never configured)
+	if cfg, err := GetServerTLSConfig(TLSConfig{CertificatePath: own, KeyPath: ownKey, RemoteCAPath: ""}, log.NewNoopLogger()); err == nil {
+		c19Fail(t, st, part, map[string]string{"ca_bundle": "(none configured)", "role": "server"}, fmt.Sprintf("server TLS config with CA verification on was built without any configured CA (client CA pool set: %v)", cfg != nil && cfg.ClientCAs != nil))
+	}
+	st.Case(vfshared.Fingerprint("bundle", "none"), true, "fail_closed_bundle")
 	done := true
 	st.Exhaustive = &done
 }
